@@ -27,9 +27,9 @@ OMEGA_PROFILES = {
     # all layouts of <= 2 records, the first from the full alphabets, one edit
     "A": dict(_BASE),
     # the rich record second; two edits; DIAGONAL(n) headers; sliced by seed
-    "B": dict(_BASE, RichPos=2, MaxEdits=2, HdrOpts="{TRUE, FALSE}", TailFix="{TRUE, FALSE}", TailSizes="{1, 2}", NSlices=12),
+    "B": dict(_BASE, RichPos=2, MaxEdits=2, HdrOpts="{TRUE, FALSE}", TailFix="{TRUE, FALSE}", TailSizes="{1, 2}", NSlices=48),
     # $SIGMA records: value / fix edits only
-    "S": dict(_BASE, Structural="FALSE", MaxEtas=3, NSlices=2),
+    "S": dict(_BASE, Structural="FALSE", MaxEtas=3, NSlices=1),
     "TA": dict(_BASE, MaxRecs=2, MaxEtas=5, Sizes="{1, 2, 3}", BlockRep="{TRUE, FALSE}", HdrOpts="{TRUE, FALSE}",
                DiagReps="{2, 3}", NEditVals=2, TailFix="{TRUE, FALSE}", TailSizes="{1, 2}", NSlices=2),
     "TB": dict(_BASE, RichPos=2, MaxRecs=3, MaxEtas=5, MaxEdits=2, Sizes="{1, 2, 3}", TailSizes="{1, 2}", MaxTailItems=2, NSlices=40),
@@ -353,13 +353,15 @@ def replay_omega(case):
     for idx, s in enumerate(steps):
         e = s["edit"]
         stepinfo = dict(s["feat"], index=idx, op=e["op"])
+        stepinfo["removal_in_repeat_record"] = e["op"] in ("RemoveEta", "Join") and bool(s["feat"].get("rec_has_repeat"))
+        stepinfo["removes_last_item"] = e["op"] in ("RemoveEta", "Join") and bool(s["feat"].get("last_of_multi"))
         try:
             m2 = m.update_source() if e["op"] == "Empty" else _apply(m, e, prefix)
             code = m2.code
         except core.MachineryError:
             raise
         except (ValueError, NotImplementedError) as ex:
-            out.append(("skip:refused:" + type(ex).__name__, base, None))
+            out.append(("skip:refused:" + type(ex).__name__, dict(base, refusal=f"{e['op']}: {str(ex)[:120]}"), None))
             return out
         except Exception as ex:
             bad(stepinfo, type(ex).__name__, f"{e['op']} raised {type(ex).__name__}: {str(ex)[:200]}")
@@ -393,11 +395,11 @@ def replay_omega(case):
         if missing is not None:
             bad(stepinfo, "spelling_changed", f"untouched item {' '.join(missing)} is no longer spelled that way in: "
                 + " | ".join(b.strip() for _, b in split_records(code, (prefix,))), spell={"item": " ".join(missing)}, code=code)
-            failed = True
         if failed:
             return out
         m = m2
-    out.append(("ok", base, None))
+    if not out:
+        out.append(("ok", base, None))
     return out
 
 
